@@ -132,3 +132,67 @@ func H_C04_conserve() {
 	}
 	vReach("end")
 }
+
+//verif:witness H_C04_contention end
+//verif:bound C04 all contention harness: buffer (capacity 1..2) pre-filled while the worker is parked in a gated appender, then 2 producers submit one item each concurrently (DiscardOldest / Discard / Block x event / raw write), pre-emption at every visible operation with at most 2 pre-emptive switches; the gate is opened afterwards and conservation is checked after Stop
+//verif:engine-only H_C04_contention
+
+// H_C04_contention: two producers overflow a full buffer at the same time.
+func H_C04_contention() { vContention() }
+
+func vContention() {
+	vOpt("loop", 400)
+	vOpt("schedall", 1)
+	vOpt("preempt", 2)
+	capacity := 1 + vChoose("cap", 2)
+	policy := BufferFullPolicy(vChoose("policy", 3))
+	vOpt("chancap", capacity)
+	app := &vGateAppender{gate: make(chan int, 8), ack: make(chan int, 8)}
+	all := LevelRange{MinLevel: NoneLevel, MaxLevel: MaxLevel}
+	l := &AsyncLogger{LoggerBase: LoggerBase{Name: "a", Level: all}, BufferSize: 100, BufferFullPolicy: policy}
+	l.AppenderRefs.AppenderRefs = []*AppenderRef{{Appender: app, Level: all}}
+	if err := l.Start(); err != nil {
+		panic(err)
+	}
+	submitted := 0
+	id := 1
+	// fill the buffer; the worker may take the first item and park at the gate
+	for i := 0; i < capacity; i++ {
+		vSubmit(l, vItem{kind: 0, id: id, level: 300})
+		id++
+		submitted++
+	}
+	if policy == BufferFullPolicyBlock {
+		// with Block the producers need the worker to make room: open the gate up-front
+		for i := 0; i < 6; i++ {
+			app.gate <- 1
+		}
+	}
+	done := make(chan int, 2)
+	for p := 0; p < 2; p++ {
+		it := vItem{kind: 2 * vChoose("kind", 2), id: id, level: 300}
+		id++
+		submitted++
+		go func(it vItem) {
+			vSubmit(l, it)
+			done <- 1
+		}(it)
+	}
+	<-done
+	<-done
+	if policy != BufferFullPolicyBlock {
+		for i := 0; i < 6; i++ {
+			app.gate <- 1
+		}
+	}
+	l.Stop()
+	delivered := len(app.got)
+	discarded := int(l.GetDiscardCounter())
+	vAssert(delivered+discarded == submitted, "delivered-plus-discarded-equals-submitted-under-contention")
+	for i := range app.got {
+		for j := i + 1; j < len(app.got); j++ {
+			vAssert(app.got[i] != app.got[j], "nothing-delivered-twice")
+		}
+	}
+	vReach("end")
+}
